@@ -652,7 +652,7 @@ class RadioControlProtocol(HDAP):
             represented += (
                 f"[{self.call_type}] "
                 f"[SENDER: {self.sender_id}] [TARGET: {self.target_id}] "
-                f"[{self.talker_alias_data_format}] [ALIAS: raw({self.talker_alias_data.hex()}) {self.talker_alias_data_format.decode(self.talker_alias_data)}]"
+                f"[{self.talker_alias_data_format}] [ALIAS: raw({self.talker_alias_data.hex()}) {self.talker_alias_data_format.decode(self.talker_alias_data, errors='replace')}]"
             )
         elif self.opcode == RCPOpcode.SendTalkerAliasReply:
             represented += (
